@@ -1,4 +1,4 @@
-CONSTANTS Tasks = {t1, t2, t3}  MaxOps = 1  YieldSet = TRUE  TSO = FALSE  Bug = "none"  RelPlain = FALSE  Nb0 = 0  EnvNb = TRUE  AttOverride = 9  TrackYield = TRUE  Stray = TRUE  WordMod = 0
+CONSTANTS Tasks = {t1}  MaxOps = 4  YieldSet = TRUE  TSO = FALSE  Bug = "none"  RelPlain = FALSE  Nb0 = 7  EnvNb = FALSE  AttOverride = 9  TrackYield = TRUE  Stray = TRUE  WordMod = 0
 CONSTANT Prog <- ExtractedProg  EntryAcq <- ExtractedEntryAcq  EntryTry <- ExtractedEntryTry  EntryRel <- ExtractedEntryRel
 SPECIFICATION Spec
 INVARIANT MutualExclusion
